@@ -183,7 +183,7 @@ class Vocab:
         return True
 
 
-def render(case, vocab, rot, allow_ph=False, style=0, perm=None, ns="", forms=None, casing=0):
+def render(case, vocab, rot, allow_ph=False, style=0, perm=None, ns="", forms=None, casing=0, ext_ascii_mix=False):
     """Abstract case {par, kind, sflaw} -> (text, flaw description or None).
 
     rot   : rotation index selecting concrete tags / values / flaw
@@ -228,7 +228,7 @@ def render(case, vocab, rot, allow_ph=False, style=0, perm=None, ns="", forms=No
             return ns + cs(vocab.form(vtag[0], fo + 2)) + "/" + vtag[1]
         if kd == "ext":      # the extension is part of the tag's name: it changes letter case with it (non-ASCII where allowed)
             et = vocab.ext_ok[(rot * 5 + 1) % len(vocab.ext_ok)]
-            return ns + cs(vocab.form(et, fo + 3) + "/" + ("Maße-ext" if (vocab.f.is83 and rot % 2) else "Newword-ext"))
+            return ns + cs(vocab.form(et, fo + 3) + "/" + ("Maße-ext" if (vocab.f.is83 and (rot % 2 or not ext_ascii_mix)) else "Newword-ext"))
         if kd == "bad":
             flaw_used = flaw
             txt = flaw[1](rot)
